@@ -178,7 +178,7 @@ def back_dimless(v) -> list[int]:
 
 def _region_in(r) -> str:
     if not isinstance(r, str):
-        raise ValueError(f"region {r!r} is not a string")
+        raise OffLattice(f"region {r!r} is not a string")
     return GROUND if r == "_" else r
 
 
